@@ -39,7 +39,7 @@ type engineB struct {
 }
 
 var engineBProps = map[string]*engineB{
-	"C04": {design: "4/C04", fine: []string{"bus/client.go"}},
+	"C04": {design: "4/C04", fine: []string{"bus/client.go", "bus/proxy.go"}},
 	"C06": {design: "4/C06"},
 	"C10": {design: "4/C10"},
 	"C11": {design: "4/C11"},
